@@ -165,7 +165,7 @@ fn run_one(c: &mut Case) {
         }
         // the task just returned Pending: is it suspended waiting for client input only?
         let (waiting, read_total, out) = {
-            let p = w.pipe.lock().unwrap();
+            let p = w.pipe.lock().unwrap_or_else(std::sync::PoisonError::into_inner);
             (p.waiting_for_input_only(), p.read_total, p.outbox.clone())
         };
         if !waiting || !w.exec.runnable().is_empty() {
@@ -215,7 +215,7 @@ fn run_one(c: &mut Case) {
             c.l.count("step_budget_exhausted");
         }
         End::Quiescent => {
-            let out = w.pipe.lock().unwrap().outbox.clone();
+            let out = w.pipe.lock().unwrap_or_else(std::sync::PoisonError::into_inner).outbox.clone();
             let s = conn::summarize(&out, &w.peer.request_ids);
             let blocked = w.peer.blocked_on(&s);
             let (phase, source) = {
@@ -251,7 +251,7 @@ fn run_one(c: &mut Case) {
             // every query the peer waited for was answered (otherwise the peer could not have finished);
             // if the connection ended early (no keep-conn) remaining queries were never sent.
             c.l.count("connections_completed");
-            let out = w.pipe.lock().unwrap().outbox.clone();
+            let out = w.pipe.lock().unwrap_or_else(std::sync::PoisonError::into_inner).outbox.clone();
             c.l.add("replies_observed", mgmt_records(&out).len() as u64);
             let mut h = case.beh.class();
             for s in &case.scripts {
